@@ -127,15 +127,19 @@ def split_batch_scenario(coll, stats):
             end = min(ends) if ends else 10 ** 9
             between = [(q, pr) for (s_, q, pr, f) in tracer.statements
                        if sq < s_ < end and O.is_effect(q)]
-            executed = [(u[1], u[2]) for u in CP.units_from_sql(between)
-                        if u[0] == 'e']
+            executed = [(u[1], u[2]) for u in CP.units_from_sql(
+                between, dedup=False) if u[0] == 'e']
             carried = [tuple(e) for e in p['evolutions']]
-            # units executed earlier in the run are not re-detected by the
-            # recogniser, so compare as "carried but not executed here"
             extra = [e for e in carried if e not in executed]
             if extra and not deps == []:
                 coll.add('C17|payload-names-evolutions-not-executed-between-'
                          'the-pair|split-batches', replay,
+                         {'carried': carried, 'executed': executed})
+                break
+            unnamed = [e for e in executed if e not in carried]
+            if unnamed:
+                coll.add('C17|sql-of-evolutions-the-pair-does-not-name|'
+                         'split-batches', replay,
                          {'carried': carried, 'executed': executed})
                 break
 
